@@ -563,6 +563,9 @@ def clause_h(repo, chk):
 
 
 def run(repo, chk, tier):
+    from ..cacheown import check_persistent_state
+
+    check_persistent_state(repo, chk, ["tf_pwa/variable.py"])
     chk.assume("history-level invariants (sequences of operations) are not decided; each clause is a necessary condition on a single operation")
     clause_a(repo, chk)
     clause_b(repo, chk)
